@@ -48,6 +48,10 @@ def full_runs(run, rnd):
         for rep in range(5 if thorough else 2):
             seed = rnd.randrange(10 ** 6)
             es0, vs0, _ = graphs.make(kind, seed, n_poses=6, n_landmarks=2, closures=3, noise=0.03, cross=True)
+            if kind == 'SE3':
+                # one landmark edge has exactly the identity as its offset; the negate-quaternions representation stores it as (0, 0, 0, -1)
+                lm0 = [e for e in es0 if hasattr(e, 'offset')][0]
+                lm0.offset = type(lm0.offset).identity()
 
             def fresh():
                 return copy.deepcopy(es0), copy.deepcopy(vs0)
@@ -105,7 +109,7 @@ def full_runs(run, rnd):
                 for j, e in enumerate(es):
                     if j % 3 == 0 and isinstance(e, EdgeOdometry):
                         e.estimate[3:] = -e.estimate[3:]
-                    if hasattr(e, 'offset') and j % 2 == 0:
+                    if hasattr(e, 'offset') and (j % 2 == 0 or not np.any(np.asarray(e.offset)[:6])):
                         e.offset[3:] = -e.offset[3:]
                 variants.append(('negate-quaternions', es, vs, {}, lambda i: i, 1.0))
             if kind == 'SE2':
